@@ -287,6 +287,16 @@ def result_diff(orig, loaded, data_token: str) -> dict[str, list[str]]:
         elif not float_bits_equal(a, b):
             n = int(np.sum(~((a == b) | (np.isnan(a) & np.isnan(b)))))
             hp.append(f"{n} of {a.size} entries differ (max abs difference {_maxdiff(a, b)})")
+    # an equal history behaves like the saved one: the loaded result's parameters can be recorded into it (found by ParamHistory.tla, X04)
+    import copy as _copy
+    try:
+        h2 = _copy.deepcopy(loaded.parameter_history)
+        n0 = h2.number_of_records
+        h2.append(loaded.optimized_parameters, 99)
+        if h2.number_of_records != n0 + 1:
+            hp.append("appending the loaded parameters to the loaded history does not add a record")
+    except Exception as ex:  # noqa: BLE001
+        hp.append(f"appending the loaded parameters to the loaded history raises {type(ex).__name__}: {str(ex)[:120]}")
     put("parameter_history", hp)
     ho = []
     a, b = orig.optimization_history.data, loaded.optimization_history.data
